@@ -62,7 +62,7 @@ Print Assumptions C02_render_restores_cur.
 Theorem C02_faithful : forall (D : str -> str) (B : backend) (C : cfg) (OR : oracles)
                               (ts : list tok) (doc : node) (ws : list str),
   O_lexer_concat OR -> O_canon D OR -> O_no_files OR ->
-  static_forest ts = true ->
+  static_forest B C OR ts = true ->
   render_doc B C OR ts = Good (doc, ws) ->
   has_dropped doc = false ->
   skel_node D doc = skel_toks D B C OR ts.
@@ -73,8 +73,8 @@ Print Assumptions C02_faithful.
    (what erase_backend removes: how a code block carries its language; target nodes).  PARTIAL: the
    attributes outside the skeleton (classes, names, ids) are compared by the correspondence check only. *)
 Theorem C02_backends_agree_partial : forall (D : str -> str) C OR ts docD wsD docS wsS,
-  O_lexer_concat OR -> O_canon D OR -> O_no_files OR ->
-  static_forest ts = true ->
+  O_lexer_concat OR -> O_canon D OR -> O_no_files OR -> O_dyn_agree D OR ->
+  static_forest Docutils C OR ts = true -> static_forest Sphinx C OR ts = true ->
   render_doc Docutils C OR ts = Good (docD, wsD) -> has_dropped docD = false ->
   render_doc Sphinx C OR ts = Good (docS, wsS) -> has_dropped docS = false ->
   flat_map erase_backend (skel_node D docD) = flat_map erase_backend (skel_node D docS).
@@ -85,7 +85,7 @@ Print Assumptions C02_backends_agree_partial.
    document that is one fenced code block. *)
 Theorem C02_code_verbatim_partial : forall (D : str -> str) B C OR (t : tok) doc ws,
   O_lexer_concat OR -> O_canon D OR -> O_no_files OR ->
-  kind_of (ty t) = KFence -> static_forest [t] = true ->
+  kind_of (ty t) = KFence -> dyn_key C OR t = DStatic -> static_forest B C OR [t] = true ->
   render_doc B C OR [t] = Good (doc, ws) -> has_dropped doc = false ->
   skel_node D doc = [SCode (lang_carried B OR t (Some (fence_name B C OR t))) (strip1nl (content t))].
 Proof. exact code_verbatim. Qed.
@@ -95,7 +95,7 @@ Print Assumptions C02_code_verbatim_partial.
    Lexer: open finding code-verbatim:pygments-stripnl) the code block "\n\nx\n" is not carried verbatim. *)
 Theorem C02_code_verbatim_refuted :
   exists (ts : list tok) doc ws,
-    static_forest ts = true /\
+    static_forest Docutils default_cfg stripnl_oracles ts = true /\
     render_doc Docutils default_cfg stripnl_oracles ts = Good (doc, ws) /\ has_dropped doc = false /\
     skel_node (fun x => x) doc <> skel_toks (fun x => x) Docutils default_cfg stripnl_oracles ts.
 Proof. exact code_verbatim_refuted. Qed.
@@ -104,7 +104,7 @@ Print Assumptions C02_code_verbatim_refuted.
 (* non-vacuity: a heading, a paragraph with text, and a code fence meet every premise of C02_faithful *)
 Example C02_example :
   let ts := [tok_heading 1 [tok_text [97]]; tok_para [tok_text [98]]; tok_fence [] [120; 10]] in
-  static_forest ts = true /\
+  static_forest Docutils default_cfg dummy_oracles ts = true /\
   match render_doc Docutils default_cfg dummy_oracles ts with
   | Good (doc, _) => has_dropped doc = false /\
                      skel_node (fun x => x) doc = skel_toks (fun x => x) Docutils default_cfg dummy_oracles ts
